@@ -14,6 +14,7 @@ func c14Opts(i int) lib.GenOpts {
 	opt.EmptyContainers = i%3 != 0
 	opt.Density = 0.6
 	opt.ZeroLenBinary = true
+	opt.EmptyLists = i%5 < 3
 	return opt
 }
 
@@ -104,5 +105,5 @@ func runC14(r *lib.Run) {
 			}
 		}
 	}
-	r.RequireCov("variant:plain", "variant:build-empty-first", "tag:ordered-list", "tag:unkeyed", "tag:empty-container", "pruned-ok")
+	r.RequireCov("variant:plain", "variant:build-empty-first", "tag:ordered-list", "tag:unkeyed", "tag:empty-container", "tag:empty-list", "pruned-ok")
 }
